@@ -4,7 +4,7 @@ from engine import atoms
 from engine.rulelib import fnview
 from engine.cfg import render, strip_ref, peel, subexprs
 
-CRATES = ["lightning_signer"]
+CRATES = ["lightning_signer", "vls_protocol_signer"]
 LS = "lightning_signer::"
 SVT = LS + "policy::simple_validator::SimpleValidator"
 VAL = LS + "policy::validator::Validator"
@@ -25,7 +25,10 @@ CLAIM = {
             "decode_and_validate_htlc_tx (not one computed from the supplied tx), after Ok of both validator calls; "
             "the validator refuses recomposed != original sighash, builds the recomposed tx with the delay chosen by "
             "is_counterparty (holder_selected for counterparty txs, counterparty_selected otherwise) and the "
-            "txkeys' delayed and revocation keys, and validate_htlc_tx enforces the fee-rate range. The "
+            "txkeys' delayed and revocation keys, and validate_htlc_tx enforces the fee-rate range; (R9.4) the "
+            "contest delays these guards compare with are the negotiated ones: the protocol handler stores the "
+            "request's to_self_delay as holder_selected_contest_delay and remote_to_self_delay as "
+            "counterparty_selected_contest_delay (not crossed). The "
             "parameter-only HTLC request is out of scope by the property's text.",
     "note": "non-permissive policy; LockTime::is_satisfied_by / build_htlc_transaction / script parsers trusted by name",
     "technique": "static analysis: loop-iteration must-pass + must-pass-through + provenance (argument roles) + guard scenarios",
@@ -38,6 +41,7 @@ def run(ctx):
     r91(ctx)
     r92(ctx)
     r93(ctx)
+    r94(ctx)
 
 
 def r91(ctx):
@@ -320,3 +324,11 @@ def _one_def(fv, name):
             if sd is not None and sd[1] != "T" and sd[2].rv.ops:
                 return render(fv.expr(sd[2].rv.ops[0]))
     return None
+
+
+def r94(ctx):
+    ctx.rule("R9.4", "the stored contest delays are the negotiated ones: ChannelSetup.holder_selected_contest_delay <- "
+                     "to_self_delay, counterparty_selected_contest_delay <- remote_to_self_delay at the protocol handler")
+    from rules import C07
+    C07.setup_roles(ctx, "R9.4", C07.DELAY_ROLES, "sweeps and second-level HTLC transactions are then validated and "
+                    "recomposed with the other side's delay")
